@@ -873,6 +873,169 @@ def gen_cross_case(rng):
             "spec": rng.choice(["flat", "step", "quad"])}
 
 
+# ------------------------------------- operator-kets in every storage state
+def ket_states(v):
+    """the column `v` (numpy (N,1) complex) as data-layer objects in every
+    storage state the library can produce; returns [(name, Data)]."""
+    from qutip.core import data as _data
+    from qutip.core.data import dense as _dense
+    N = v.shape[0]
+    out = []
+    dF = _data.Dense(np.asfortranarray(v))
+    csr = _data.to(_data.CSR, dF)
+    out.append(("dense-F", dF))
+    out.append(("csr", csr))
+    out.append(("dia", _data.to(_data.Dia, dF)))
+    out.append(("dense<-csr", _data.to(_data.Dense, csr)))
+    out.append(("dense<-dia", _data.to(_data.Dense, _data.to(_data.Dia, dF))))
+    z = _dense.zeros(N, 1, fortran=False)
+    z.as_ndarray()[:, :] = v
+    out.append(("dense-zeros(fortran=False)", z))
+    z2 = _dense.zeros(N, 1, fortran=True)
+    z2.as_ndarray()[:, :] = v
+    out.append(("dense-zeros(fortran=True)", z2))
+    out.append(("dense(np C-ordered)", _data.Dense(np.ascontiguousarray(v))))
+    eye_csr = _data.identity[_data.CSR](N)
+    for nm, d in list(out):
+        if nm in ("dense<-csr", "dense-zeros(fortran=False)", "dense-F"):
+            out.append(("csr-identity @ " + nm, _data.matmul(eye_csr, d)))
+    out.append(("dense.copy() of dense<-csr", _data.to(_data.Dense, csr).copy()))
+    return out
+
+
+def gen_ket_case(rng):
+    r, c = rng.choice([(2, 2), (3, 3), (2, 3), (3, 2), (1, 3), (3, 1), (2, 2), (3, 3)])
+    for _ in range(20):
+        X = rand_mat(rng, r, c, "any")
+        if r != c or not np.array_equal(X, X.T):
+            if np.count_nonzero(X) >= min(2, r * c):
+                break
+    n = r
+    return {"r": r, "c": c, "X": mat_json(X),
+            "A": mat_json(rand_mat(rng, n, n, "any")), "B": mat_json(rand_mat(rng, c, c, "any")),
+            "w": rng.sample(range(-3, 6), n), "fmt": rng.choice(FORMATS)}
+
+
+def check_ket_case(case):
+    """every vec/unvec identity and every superoperator-application identity
+    with the operator-ket in every storage state (incl. Dense columns flagged
+    C-ordered), inplace and non-inplace unstacking, and the operator-ket
+    branch of _EigenBasisTransform."""
+    import warnings
+    import qutip
+    from qutip.core import data as _data
+    from qutip.core._brtools import _EigenBasisTransform
+    bad = []
+    seen = {}
+    r, c = case["r"], case["c"]
+    X = mat_unjson(case["X"])
+    A = mat_unjson(case["A"])
+    B = mat_unjson(case["B"])
+    v = vec(X)
+
+    def add(site, sig, what):
+        if not any(b[0] == site and b[1] == sig for b in bad):
+            bad.append((site, sig, what))
+
+    def flag(d):
+        return ("F" if d.fortran else "C") if isinstance(d, _data.Dense) else type(d).__name__
+
+    try:
+        states = ket_states(v)
+        for nm, d in states:
+            st = "%s[%s]" % (nm, flag(d))
+            seen[flag(d)] = seen.get(flag(d), 0) + 1
+            if not np.array_equal(d.to_array(), v):
+                add("data.ket-state", "construction:" + nm, "state %s does not hold vec(X)" % st)
+                continue
+            # -- unstacking: dispatcher, specialisation, inplace, Python wrappers
+            got = _data.column_unstack(d, r).to_array()
+            if not np.array_equal(got, X):
+                add("reshape.column_unstack", "ket-state:" + flag(d),
+                    "column_unstack(vec X) != X for the operator-ket state %s%s" % (
+                        st, " (it is X^T reshaped)" if got.shape == X.shape and np.array_equal(
+                            got, X.T.reshape(X.shape, order='F')) or (
+                            r == c and np.array_equal(got, X.T)) else ""))
+            if isinstance(d, _data.Dense):
+                for inplace in (False, True):
+                    dd = d.copy()
+                    with warnings.catch_warnings():
+                        warnings.simplefilter("ignore")
+                        got = _data.column_unstack_dense(dd, r, inplace).to_array()
+                    if not np.array_equal(got, X):
+                        add("reshape.column_unstack_dense", "inplace=%s:%s" % (inplace, flag(d)),
+                            "column_unstack_dense(%s, inplace=%s) != X" % (st, inplace))
+            if not np.array_equal(qutip.unstack_columns(d, (r, c)).to_array(), X):
+                add("superoperator.unstack_columns", "ket-state:" + flag(d),
+                    "unstack_columns(%s) != X" % st)
+            back = _data.column_stack(_data.column_unstack(d, r))
+            if not np.array_equal(back.to_array(), v):
+                add("reshape.column_stack", "roundtrip:" + flag(d),
+                    "column_stack(column_unstack(v)) != v for state %s" % st)
+            # -- Qobj level
+            kq = qutip.Qobj(d, dims=[[[r], [c]], [1]], superrep="super", copy=False)
+            if kq.isoperket:
+                if not np.array_equal(qutip.vector_to_operator(kq).full(), X):
+                    add("superoperator.vector_to_operator", "ket-state:" + flag(d),
+                        "vector_to_operator(ket in state %s) != X" % st)
+            # -- superoperator application (square operators)
+            if r == c and r > 1:
+                n = r
+                qa = mk_qobj(A, case["fmt"])
+                qb = mk_qobj(B, case["fmt"])
+                Hh = A + A.conj().T
+                sups = [("spre", qutip.spre(qa), A @ X),
+                        ("spost", qutip.spost(qa), X @ A),
+                        ("sprepost", qutip.sprepost(qa, qb), A @ X @ B),
+                        ("liouvillian", qutip.liouvillian(mk_qobj(Hh, case["fmt"]), [qb]),
+                         lindblad_ref(Hh, [(B, 1.0)], X))]
+                for snm, Sq, want in sups:
+                    for sfmt in FORMATS:
+                        S2 = Sq.to(sfmt)
+                        res = S2 * kq
+                        if not np.array_equal(qutip.vector_to_operator(res).full(), want):
+                            add("superoperator.apply", "%s:ket-state:%s" % (snm, flag(d)),
+                                "vector_to_operator(%s[%s] * ket[%s]) differs from the operator "
+                                "expression (result state %s)" % (
+                                    snm, sfmt, st, flag(res.data)))
+                        prod = _data.matmul(S2.data, d)
+                        if not np.array_equal(_data.column_unstack(prod, n).to_array(), want):
+                            add("superoperator.apply", "%s:data:%s" % (snm, flag(d)),
+                                "column_unstack(matmul(%s[%s], ket[%s])) differs from the "
+                                "operator expression (product state %s)" % (
+                                    snm, sfmt, st, flag(prod)))
+        # -- the CSR->dense conversion of an operator-ket Qobj
+        if r == c:
+            xq = mk_qobj(X, "CSR")
+            kd = qutip.operator_to_vector(xq).to("Dense")
+            seen["qobj.to(Dense)[%s]" % flag(kd.data)] = 1
+            if not np.array_equal(qutip.vector_to_operator(kd).full(), X):
+                add("superoperator.vector_to_operator", "operator_to_vector(csr).to(dense)",
+                    "vector_to_operator(operator_to_vector(X_csr).to('Dense')) != X "
+                    "(ket flagged %s)" % flag(kd.data))
+            # -- _EigenBasisTransform, operator-ket branch
+            n = r
+            H = qutip.Qobj(np.diag(np.array(case["w"], dtype=complex)))
+            ev = _EigenBasisTransform(qutip.QobjEvo(H))
+            V = ev.evecs(0).to_array()
+            if np.array_equal(V @ V.conj().T, np.eye(n)):
+                for nm, d in states:
+                    st = "%s[%s]" % (nm, flag(d))
+                    t = ev.to_eigbasis(0, d)
+                    if not np.array_equal(_data.column_unstack(t, n).to_array(),
+                                          V.conj().T @ X @ V):
+                        add("brtools._EigenBasisTransform.operator-ket", "to_eigbasis:" + flag(d),
+                            "to_eigbasis(operator-ket %s) != vec(V^dag X V)" % st)
+                    f = ev.from_eigbasis(0, d)
+                    if not np.array_equal(_data.column_unstack(f, n).to_array(),
+                                          V @ X @ V.conj().T):
+                        add("brtools._EigenBasisTransform.operator-ket", "from_eigbasis:" + flag(d),
+                            "from_eigbasis(operator-ket %s) != vec(V X V^dag)" % st)
+    except Exception as ex:      # noqa: BLE001
+        add("data.ket-state", "raises:" + type(ex).__name__, "raised %r" % (ex,))
+    return bad, seen
+
+
 # ------------------------------------------- time-dependent inputs / history
 def _lin_t(t):
     return float(t)
@@ -1168,6 +1331,14 @@ def run_oracle(ctx, rng, terms, n_liou, n_small, n_br, n_brt, n_cross):
         case = gen_cross_case(rng)
         ctx.count_case(("cross", json.dumps(case, sort_keys=True)))
         report(ctx, check_cross_matmul(case), {"br_matmul": case})
+    dist["ket_states"] = {}
+    for k in range(max(4, n_small // 10)):
+        case = gen_ket_case(rng)
+        ctx.count_case(("ket", json.dumps(case, sort_keys=True)))
+        problems, seen = check_ket_case(case)
+        for kk, vv in seen.items():
+            dist["ket_states"][kk] = dist["ket_states"].get(kk, 0) + vv
+        report(ctx, problems, {"ket_state": case})
     n_hist = max(2, n_brt // 2)
     dist["br_history"] = {"exact": 0, "numeric": 0}
     for k in range(n_hist):
@@ -1376,6 +1547,8 @@ def replay(ctx, payload):
         report(ctx, check_cterm_case(d["br_cterm"]), d)
     if "bloch_redfield_tensor" in d:
         report(ctx, check_brt_case(d["bloch_redfield_tensor"]), d)
+    if "ket_state" in d:
+        report(ctx, check_ket_case(d["ket_state"])[0], d)
     if "br_history" in d:
         report(ctx, check_hist_case(d["br_history"]), d)
     if "br_transform_history" in d:
